@@ -111,12 +111,12 @@ theorem endBlockOne_inv {s : State} {id : PoolId} (hi : Inv s) (hdue : (s.height
   simp only at hv
   rcases hv with e | e | ⟨w, e⟩
   · subst e
-    obtain ⟨i1, h1, q1, o1, hd1⟩ := inv_refund hi hp (Or.inl hr)
+    obtain ⟨i1, h1, q1, o1, hd1⟩ := inv_refund hi hp hact (Or.inl hr)
     right
     refine ⟨s1, rfl, i1, h1, ?_, o1, hd1⟩
     intro e; rw [q1, mem_dequeue, hend]
   · subst e
-    obtain ⟨i1, h1, q1, o1, hd1⟩ := inv_refund hi hp (Or.inr hr)
+    obtain ⟨i1, h1, q1, o1, hd1⟩ := inv_refund hi hp hact (Or.inr hr)
     right
     refine ⟨s1, rfl, i1, h1, ?_, o1, hd1⟩
     intro e; rw [q1, mem_dequeue, hend]
@@ -177,7 +177,7 @@ theorem endBlockIds_inv : ∀ (ids : List PoolId) {s : State}, Inv s → ids.Nod
 theorem inv_nextHeight {s : State} (hi : Inv s) (hnodue : ∀ id, (s.height, id) ∉ s.queue) :
     Inv { s with height := s.height + 1 } := by
   obtain ⟨q1, q2, q3⟩ := hi.core.queue
-  refine ⟨⟨?_, hi.core.wf, ?_, ?_, hi.core.budget, hi.core.debt, hi.core.fpool⟩,
+  refine ⟨⟨?_, hi.core.wf, ?_, ?_, hi.core.budget, hi.core.debt, hi.core.fpool, ?_⟩,
     Stakes.of_same (s := s) ⟨rfl, fun _ => rfl⟩ hi.stakes, hi.modacc⟩
   · show 0 ≤ s.height + 1; have := hi.core.hnn; omega
   · intro id p hp
@@ -193,6 +193,9 @@ theorem inv_nextHeight {s : State} (hi : Inv s) (hnodue : ∀ id, (s.height, id)
       omega
     · intro id p hp hlt
       exact q2 id p hp (by have : s.height + 1 < p.endH := hlt; omega)
+  · intro id p hp r hr
+    exact (hi.core.ghost id p hp r hr).transfer (fun h => h)
+      (by intro h; show p.endH ≤ s.height + 1; omega)
 
 theorem endBlocker_inv {s : State} (hi : Inv s) :
     (∃ w, endBlocker s = .error (.panic w)) ∨
